@@ -183,6 +183,22 @@ func (o *objectImpl) SetProperty(name value.Value, newValue value.Value) error {
 		return fmt.Errorf("invalid signature: %s", err)
 	}
 	data := buf.Bytes()
+	// the new value must be of the declared type of the property.
+	declared := false
+	for _, property := range o.meta.Properties {
+		if property.Name == nameStr {
+			declared = true
+			if sig != property.Signature &&
+				"("+sig+")" != property.Signature {
+				return fmt.Errorf(
+					"property %s: invalid type %s (expecting %s)",
+					nameStr, sig, property.Signature)
+			}
+		}
+	}
+	if !declared {
+		return fmt.Errorf("unknown property %s", nameStr)
+	}
 	err = o.onPropertyChange(nameStr, data)
 	if err != nil {
 		return err
